@@ -123,8 +123,22 @@ class Pair:
         self.nested = nested_pairs
         names_seen = set()
         self.plan = [df for df in self.plan if not (df.name in names_seen or names_seen.add(df.name))]
+        # linked destination fields may have defaults too, and unlinked optional fields may sit anywhere among them
+        # (a skipped parameter in the middle changes the positional / keyword plan of the generated constructor call)
+        for df in self.plan:
+            if df.req == "req" and df.source[0] != "default" and df.coerce[0] in ("asis", "custom") and rng.random() < 0.35:
+                try:
+                    req, d = models.default_for(rng, df.node)
+                except LookupError:
+                    continue
+                df.req, df.default = req, d
+                ctx.count("linked_field_with_default")
         dfields = [models.FieldSpec(df.name, df.node, df.req, df.default) for df in self.plan]
-        dfields.sort(key=lambda f: not f.required)
+        optional = [f for f in dfields if not f.required]
+        rng.shuffle(optional)
+        dfields = [f for f in dfields if f.required] + optional
+        if any(f.req != "req" and i < len(dfields) - 1 for i, f in enumerate(dfields) if f.name in {d.name for d in self.plan if d.source[0] == "default"}):
+            ctx.count("unlinked_optional_before_linked_field")
         self.dst_node = models.ModelT(self.dst_kind, dfields, name=f"D{next(_n)}")
 
     # ---- recipe realising the plan (with decoys) ------------------------------------------------------
